@@ -16,32 +16,31 @@ Definition d_ok2 : dcase := {| d_reg := REG; d_module := [[{| cr_code := (Num 20
 Definition d_ok3 : dcase := {| d_reg := REG; d_module := [[{| cr_code := (Num 200); cr_content := [{| c_media := [97;112;112;108;105;99;97;116;105;111;110;47;106;115;111;110]; c_type := (TClass [73;116;101;109]); c_binfmt := false |}] |}; {| cr_code := (Num 201); cr_content := [{| c_media := [97;112;112;108;105;99;97;116;105;111;110;47;106;115;111;110]; c_type := (TClass [73;116;101;109]); c_binfmt := false |}] |}; {| cr_code := (Num 202); cr_content := [] |}]]; d_op := 0%nat; d_resp := 2%nat; d_entry := None |}.
 Definition d_switch : dcase := {| d_reg := REG; d_module := [[{| cr_code := (Num 200); cr_content := [{| c_media := [97;112;112;108;105;99;97;116;105;111;110;47;106;115;111;110]; c_type := (TClass [73;116;101;109]); c_binfmt := false |}; {| c_media := [116;101;120;116;47;112;108;97;105;110]; c_type := (TPrim PStr); c_binfmt := false |}] |}]]; d_op := 0%nat; d_resp := 0%nat; d_entry := (Some 1%nat) |}.
 
-(* ---------- witnesses: each finding's input fails exactly its own guard conjunct, and the property is false on it ---------- *)
+(* ---------- witnesses: each open finding's input fails exactly its own guard conjunct, and the property is false on it ---------- *)
 Definition guard_bits (d : dcase) : list bool :=
-  [guard_F05b d; guard_F05c d; guard_F05e d; guard_F05f d; guard_F05g d; guard_F05h d; guard_F05i d].
+  [guard_F05b d; guard_F05c d; guard_F05f d; guard_F05h d; guard_F05i d].
 
-Theorem refuted_F05b : guard_bits d_F05b = [false; true; true; true; true; true; true]
+Theorem refuted_F05b : guard_bits d_F05b = [false; true; true; true; true]
   /\ the_path d_F05b = PCast /\ the_want d_F05b = WJsonTyped (TLib [100;97;116;101;116;105;109;101]) /\ C05_holds d_F05b = false.
 Proof. repeat split; vm_compute; reflexivity. Qed.
-Theorem refuted_F05c : guard_bits d_F05c = [true; false; true; true; true; true; true]
+Theorem refuted_F05c : guard_bits d_F05c = [true; false; true; true; true]
   /\ the_path d_F05c = PCast /\ the_want d_F05c = WText /\ C05_holds d_F05c = false.
 Proof. repeat split; vm_compute; reflexivity. Qed.
-Theorem refuted_F05e : guard_bits d_F05e = [true; true; false; true; true; true; true]
-  /\ the_imported d_F05e = false /\ (exists c, the_path d_F05e = PStructure c) /\ C05_holds d_F05e = false.
-Proof. repeat split; try (vm_compute; reflexivity). eexists. vm_compute. reflexivity. Qed.
-Theorem refuted_F05f : guard_bits d_F05f = [true; true; true; false; true; true; true]
+Theorem refuted_F05f : guard_bits d_F05f = [true; true; false; true; true]
   /\ the_path d_F05f = PStreamSse /\ the_want d_F05f = WStreamItems /\ C05_holds d_F05f = false.
 Proof. repeat split; vm_compute; reflexivity. Qed.
-Theorem refuted_F05g : guard_bits d_F05g = [true; true; true; true; false; true; true]
-  /\ the_path d_F05g = PRaiseHTTP /\ C05_holds d_F05g = false.
-Proof. repeat split; vm_compute; reflexivity. Qed.
-
-Theorem refuted_F05h : guard_bits d_F05h = [true; true; true; true; true; false; true]
+Theorem refuted_F05h : guard_bits d_F05h = [true; true; true; false; true]
   /\ module_syntax_ok (d_module d_F05h) = false /\ C05_holds d_F05h = false.
 Proof. repeat split; vm_compute; reflexivity. Qed.
-Theorem refuted_F05i : guard_bits d_F05i = [true; true; true; true; true; true; false]
+Theorem refuted_F05i : guard_bits d_F05i = [true; true; true; true; false]
   /\ the_annotation d_F05i = [73;116;101;109] /\ the_want d_F05i = WJsonTyped (TClass [67;97;116]) /\ C05_holds d_F05i = false.
 Proof. repeat split; vm_compute; reflexivity. Qed.
+
+(* regression: the witnesses of the fixed findings F05e (missing import) and F05g ("2XX" without a case) *)
+Example fixed_F05e : c05_guard d_F05e = true /\ the_imported d_F05e = true /\ C05_holds d_F05e = true.
+Proof. repeat split; vm_compute; reflexivity. Qed.
+Example fixed_F05g : c05_guard d_F05g = true /\ (exists c, the_path d_F05g = PStructure c) /\ C05_holds d_F05g = true.
+Proof. repeat split; try (vm_compute; reflexivity). eexists. vm_compute. reflexivity. Qed.
 
 Example guard_nonvacuous :
   c05_guard d_ok = true /\ C05_holds d_ok = true /\ c05_guard d_ok2 = true /\ C05_holds d_ok2 = true
@@ -92,9 +91,6 @@ Lemma handle_primary : forall reg o r n ct,
   handle reg o n ct = if is_none_ret (resolve o) then PNone else strategy_path reg (resolve o) ct.
 Proof. intros reg o r n ct H. unfold handle. rewrite H, N.eqb_refl. reflexivity. Qed.
 
-Definition find_status (st : N) (rs : cop) : option cresp :=
-  find (fun r => match cr_code r with Num m => m =? st | _ => false end) rs.
-
 Lemma handle_secondary : forall reg o p n r m ct,
   cprocessed o = Some (p, n) -> m <> n ->
   find_status m (cothers o) = Some r -> lead2 m = true ->
@@ -102,23 +98,22 @@ Lemma handle_secondary : forall reg o p n r m ct,
 Proof.
   intros reg o p n r m ct Hp Hne Hf Hl. unfold handle. rewrite Hp.
   replace (n =? m) with false by (symmetry; apply N.eqb_neq; congruence).
-  unfold find_status in Hf. rewrite Hf.
+  rewrite Hf. unfold find_status in Hf.
   pose proof (find_some _ _ Hf) as [_ Hc]. destruct (cr_code r) as [k| |s]; try discriminate.
   apply N.eqb_eq in Hc. subst k. rewrite Hl. reflexivity.
 Qed.
 
-(* a declared wildcard 2xx key never gets a case: any status that is no numeric key and not the primary's
-   falls to `case _` (finding F05g when the fallback raises) *)
-Lemma handle_undeclared : forall reg o st ct,
-  (forall p n, cprocessed o = Some (p, n) -> n <> st) ->
-  find_status st (cothers o) = None -> fallback (map to_resp o) = ARaiseFallback ->
-  handle reg o st ct = PRaiseHTTP.
+(* F05g fixed: a success response declared under the range key "2XX" that is the operation's primary response
+   handles every 2xx status that has no case of its own, with the response strategy *)
+Lemma handle_wildcard_primary : forall reg o w st ct,
+  cprocessed o = None -> find_status st (cothers o) = None ->
+  wildcard_resp o = Some w -> is_strategy_resp o w = true -> 200 <= st < 300 ->
+  handle reg o st ct = if is_none_ret (resolve o) then PNone else strategy_path reg (resolve o) ct.
 Proof.
-  intros reg o st ct Hp Hf Hfb. unfold handle. unfold find_status in Hf.
-  destruct (cprocessed o) as [[p n]|] eqn:E.
-  - replace (n =? st) with false by (symmetry; apply N.eqb_neq; eapply Hp; eauto).
-    rewrite Hf, Hfb. reflexivity.
-  - rewrite Hf, Hfb. reflexivity.
+  intros reg o w st ct Hp Hf Hw Hs Hr. unfold handle. rewrite Hp, Hf, Hw, Hs.
+  replace (in_range wildcard_lo wildcard_hi st) with true
+    by (unfold in_range, wildcard_lo, wildcard_hi; lia).
+  reflexivity.
 Qed.
 
 (* the strategy resolver and the handler pick the same primary response (three copies agree: C06_primary_agree) *)
